@@ -71,3 +71,45 @@ def poll_race(gate, node_name="r", patience=30.0):
         cf.ConcurrentFuturesWorker.uncloudpickle_and_run = orig_run
         sm.NodeExecution.update_status = orig_update
         sm.Submitter.get_runnable_tasks = orig_pass
+
+
+@contextlib.contextmanager
+def slow_start(gate, passes=3, patience=6.0):
+    """Witness of the stale-read race (F-C13-4): the pool process is slow to START a job (it
+    waits for `<gate>/release`, written after the submitter's `passes`-th look at the graph, at
+    most `patience` s), so the submitter's status polling looks at the job's cache directory
+    while it still holds what the previous run left there.  Nothing in pydra's logic is changed;
+    only *when* the pool process begins."""
+    from pydra.engine import submitter as sm
+    from pydra.workers import cf
+
+    orig_run = cf.ConcurrentFuturesWorker.__dict__["uncloudpickle_and_run"]
+    orig_pass = sm.Submitter.get_runnable_tasks
+    release = os.path.join(gate, "release")
+    if os.path.exists(release):
+        os.unlink(release)
+    state = {"passes": 0}
+
+    def slow(cls, job_pkl, rerun):
+        _wait_for(release, patience)
+        return orig_run.__func__(cls, job_pkl, rerun)
+
+    slow.__name__ = "uncloudpickle_and_run"
+    slow.__qualname__ = "ConcurrentFuturesWorker.uncloudpickle_and_run"
+
+    def get_runnable_tasks(self, graph):
+        state["passes"] += 1
+        try:
+            return orig_pass(self, graph)
+        finally:
+            if state["passes"] >= passes:
+                open(release, "w").close()
+
+    cf.ConcurrentFuturesWorker.uncloudpickle_and_run = classmethod(slow)
+    sm.Submitter.get_runnable_tasks = get_runnable_tasks
+    try:
+        yield
+    finally:
+        cf.ConcurrentFuturesWorker.uncloudpickle_and_run = orig_run
+        sm.Submitter.get_runnable_tasks = orig_pass
+        open(release, "w").close()
